@@ -617,8 +617,8 @@ Lemma add_defaults_valid : forall max allow defaults l now r,
   all_valid allow l -> add_defaults max allow l defaults now = Some r -> all_valid allow r.
 Proof.
   induction defaults as [|d ds IH]; intros l now r V H; cbn [add_defaults] in H; [injection H as <-; exact V|].
-  pose proof (step_all_valid max allow l (AddPeer d now None) V) as V1.
-  destruct (step max allow l (AddPeer d now None)) as [l1 o1]. destruct o1; try discriminate. cbn [fst] in V1.
+  pose proof (step_all_valid max allow l (AddPeer d now (auto_victim l)) V) as V1.
+  destruct (step max allow l (AddPeer d now (auto_victim l))) as [l1 o1]. destruct o1; try discriminate. cbn [fst] in V1.
   pose proof (step_all_valid max allow l1 (SetTrusted d) V1) as V2.
   destruct (step max allow l1 (SetTrusted d)) as [l2 o2]. destruct o2; try discriminate. cbn [fst] in V2.
   eapply IH; eassumption.
@@ -627,49 +627,75 @@ Lemma add_defaults_bound : forall max allow defaults l now r,
   0 < max -> plen l <= max -> add_defaults max allow l defaults now = Some r -> plen r <= max.
 Proof.
   induction defaults as [|d ds IH]; intros l now r Hm Hl H; cbn [add_defaults] in H; [injection H as <-; exact Hl|].
-  pose proof (step_bound max allow l (AddPeer d now None) Hm Hl) as B1.
-  destruct (step max allow l (AddPeer d now None)) as [l1 o1]. destruct o1; try discriminate. cbn [fst] in B1.
+  pose proof (step_bound max allow l (AddPeer d now (auto_victim l)) Hm Hl) as B1.
+  destruct (step max allow l (AddPeer d now (auto_victim l))) as [l1 o1]. destruct o1; try discriminate. cbn [fst] in B1.
   pose proof (step_bound max allow l1 (SetTrusted d) Hm B1) as B2.
   destruct (step max allow l1 (SetTrusted d)) as [l2 o2]. destruct o2; try discriminate. cbn [fst] in B2.
   eapply IH; eassumption.
 Qed.
 
+Lemma parse_local_valid : forall allow ls peers c, parse_local allow ls = Some peers -> In c peers -> valid_form allow c.
+Proof.
+  induction ls as [|a r IH]; intros peers c H Hin; cbn [parse_local] in H; [injection H as <-; destruct Hin|].
+  destruct a as [|x a']; [eapply IH; eassumption|].
+  destruct (x =? 35); [eapply IH; eassumption|].
+  destruct (validate_address (x :: a') allow) as [cl|] eqn:Ev; [|discriminate].
+  destruct (parse_local allow r) as [xs|] eqn:Ep; [|discriminate]. injection H as <-.
+  destruct Hin as [<-|Hin]; [eapply validate_accept_valid; exact Ev|eapply IH; [reflexivity|exact Hin]].
+Qed.
+
+Lemma load_custom_valid : forall max allow l custom now r,
+  all_valid allow l -> load_custom max allow l custom now = Some r -> all_valid allow r.
+Proof.
+  intros max allow l custom now r V H. unfold load_custom in H. destruct custom as [body|]; [|injection H as <-; exact V].
+  destruct (parse_local allow (body_lines body)) as [peers|] eqn:Ep; [|discriminate]. injection H as <-.
+  intros k Hk. apply keys_fold_add in Hk as [Hk|Hk]; [|apply V; exact Hk].
+  eapply parse_local_valid; [exact Ep|]. destruct (0 <? max); [eapply firstn_In; exact Hk|exact Hk].
+Qed.
+Lemma load_custom_bound : forall max allow l custom now r,
+  0 < max -> plen l <= max -> load_custom max allow l custom now = Some r -> plen r <= max.
+Proof.
+  intros max allow l custom now r Hm Hl H. unfold load_custom in H. destruct custom as [body|]; [|injection H as <-; exact Hl].
+  destruct (parse_local allow (body_lines body)) as [peers|]; [|discriminate]. injection H as <-.
+  replace (0 <? max) with true by lia.
+  pose proof (len_fold_add now (firstn (Z.to_nat (max - plen l)) peers) l) as Hf.
+  pose proof (firstn_le_length (Z.to_nat (max - plen l)) peers) as Hn. unfold plen in *. lia.
+Qed.
+
 (* the initial-state lemma: whatever the cache file holds, the list pex.New starts
    with only holds addresses valid under the CONFIGURED localhost policy *)
-Lemma start_all_valid : forall max allow disable es kept defaults now l,
-  start max allow disable es kept defaults now = Some l -> all_valid allow l.
+Lemma start_all_valid : forall max allow disable es kept defaults custom now l,
+  start max allow disable es kept defaults custom now = Some l -> all_valid allow l.
 Proof.
-  intros max allow disable es kept defaults now l H. unfold start in H.
+  intros max allow disable es kept defaults custom now l H. unfold start in H.
   destruct (cache_cut max (cache_filter allow (load_file es)) kept) as [l0|] eqn:Ec; [|discriminate].
   destruct (add_defaults max allow (untrust_all l0) defaults now) as [l1|] eqn:Ed; [|discriminate].
-  injection H as <-.
   assert (V1 : all_valid allow l1).
   { eapply add_defaults_valid; [|exact Ed]. apply untrust_all_valid.
     eapply cache_cut_valid; [|exact Ec]. apply cache_filter_valid. apply load_file_stripped. }
-  destruct disable; [apply untrust_all_valid|]; exact V1.
+  eapply load_custom_valid; [|exact H]. destruct disable; [apply untrust_all_valid|]; exact V1.
 Qed.
-Lemma start_bound : forall max allow disable es kept defaults now l,
-  0 < max -> start max allow disable es kept defaults now = Some l -> plen l <= max.
+Lemma start_bound : forall max allow disable es kept defaults custom now l,
+  0 < max -> start max allow disable es kept defaults custom now = Some l -> plen l <= max.
 Proof.
-  intros max allow disable es kept defaults now l Hm H. unfold start in H.
+  intros max allow disable es kept defaults custom now l Hm H. unfold start in H.
   destruct (cache_cut max (cache_filter allow (load_file es)) kept) as [l0|] eqn:Ec; [|discriminate].
   destruct (add_defaults max allow (untrust_all l0) defaults now) as [l1|] eqn:Ed; [|discriminate].
-  injection H as <-.
   assert (B1 : plen l1 <= max).
   { eapply add_defaults_bound; [exact Hm| |exact Ed]. rewrite untrust_all_len. eapply cache_cut_bound; eassumption. }
-  destruct disable; [rewrite untrust_all_len|]; exact B1.
+  eapply load_custom_bound; [exact Hm| |exact H]. destruct disable; [rewrite untrust_all_len|]; exact B1.
 Qed.
 
 Lemma xstep_all_valid : forall max allow l x, all_valid allow l -> all_valid allow (fst (xstep max allow l x)).
 Proof.
-  intros max allow l [o|kept defaults disable now] V; cbn [xstep]; [apply step_all_valid; exact V|].
-  destruct (start max allow disable (saved_entries l) kept defaults now) as [l'|] eqn:E; [|exact V].
+  intros max allow l [o|kept defaults disable custom now|body perm now] V; cbn [xstep]; try (apply step_all_valid; exact V).
+  destruct (start max allow disable (saved_entries l) kept defaults custom now) as [l'|] eqn:E; [|exact V].
   cbn [fst]. eapply start_all_valid. exact E.
 Qed.
 Lemma xstep_bound : forall max allow l x, 0 < max -> plen l <= max -> plen (fst (xstep max allow l x)) <= max.
 Proof.
-  intros max allow l [o|kept defaults disable now] Hm Hl; cbn [xstep]; [apply step_bound; assumption|].
-  destruct (start max allow disable (saved_entries l) kept defaults now) as [l'|] eqn:E; [|exact Hl].
+  intros max allow l [o|kept defaults disable custom now|body perm now] Hm Hl; cbn [xstep]; try (apply step_bound; assumption).
+  destruct (start max allow disable (saved_entries l) kept defaults custom now) as [l'|] eqn:E; [|exact Hl].
   cbn [fst]. eapply start_bound; eassumption.
 Qed.
 Lemma xrun_all_valid : forall max allow xs l, all_valid allow l -> all_valid allow (xrun max allow l xs).
@@ -677,10 +703,10 @@ Proof. induction xs as [|x r IH]; intros l V; cbn [xrun]; [exact V|]. apply IH. 
 Lemma xrun_bound : forall max allow xs l, 0 < max -> plen l <= max -> plen (xrun max allow l xs) <= max.
 Proof. induction xs as [|x r IH]; intros l Hm Hl; cbn [xrun]; [exact Hl|]. apply IH; [exact Hm|]. apply xstep_bound; assumption. Qed.
 
-Lemma all_valid_from_cache : forall max allow disable es kept defaults now l0 xs k,
-  start max allow disable es kept defaults now = Some l0 ->
+Lemma all_valid_from_cache : forall max allow disable es kept defaults custom now l0 xs k,
+  start max allow disable es kept defaults custom now = Some l0 ->
   In k (keys (xrun max allow l0 xs)) -> valid_form allow k.
-Proof. intros max allow disable es kept defaults now l0 xs k H. apply xrun_all_valid. eapply start_all_valid. exact H. Qed.
-Lemma bound_from_cache : forall max allow disable es kept defaults now l0 xs,
-  0 < max -> start max allow disable es kept defaults now = Some l0 -> plen (xrun max allow l0 xs) <= max.
+Proof. intros max allow disable es kept defaults custom now l0 xs k H. apply xrun_all_valid. eapply start_all_valid. exact H. Qed.
+Lemma bound_from_cache : forall max allow disable es kept defaults custom now l0 xs,
+  0 < max -> start max allow disable es kept defaults custom now = Some l0 -> plen (xrun max allow l0 xs) <= max.
 Proof. intros. apply xrun_bound; [assumption|]. eapply start_bound; eassumption. Qed.
